@@ -184,9 +184,11 @@ Proof.
     rewrite resort_kind in Hk. destruct (vt_initial t V p0 u0 Hp0 Hu0 Hk) as (x & l & H1 & H2 & H3 & H4 & H5).
     exists x, l. rewrite resort_trans. repeat split; try assumption. intros s Hs. apply vsids_below_resort. now apply H5.
   - intros p h Hp Hh Hk. apply in_resort_subtrees in Hp as (p0 & Hp0 & ->). apply in_resort_kids in Hh as (h0 & Hh0 & ->).
-    rewrite resort_kind in Hk. destruct (vt_history t V p0 h0 Hp0 Hh0 Hk) as (x & l & H1 & H2 & H3 & H4 & H5).
-    exists x, l. rewrite resort_trans, resort_kind. repeat split; try assumption. intros s Hs. specialize (H5 s Hs).
-    destruct (is_deep_kind (t_kind h0)); [now apply vsids_below_resort | now apply vsids_kids_resort].
+    rewrite resort_kind in Hk. destruct (vt_history t V p0 h0 Hp0 Hh0 Hk) as (x & l & H1 & H2 & H3 & H4 & H5 & H6).
+    exists x, l. rewrite resort_trans, resort_kind. repeat split; try assumption.
+    + intros s Hs. specialize (H5 s Hs).
+      destruct (is_deep_kind (t_kind h0)); [now apply vsids_below_resort | now apply vsids_kids_resort].
+    + intros s Hs. apply psids_below_resort. now apply H6.
 Qed.
 
 (* ------------------------------------------------------------------ vb_docb, vb_sideb *)
@@ -234,9 +236,9 @@ Qed.
 
 Lemma vb_sideb_resort t : vb_sideb t = true -> vb_sideb (resort t) = true.
 Proof.
-  intros H. destruct (vb_sideb_parts t H) as (A & B & C & D & E). unfold vb_sideb.
+  intros H. destruct (vb_sideb_parts t H) as (A & B & D & E). unfold vb_sideb.
   unfold ct_rootb in *. rewrite compound_node_resort, A, (hist_parent_resort t B).
-  unfold vb_default_properb, vb_initial_properb in *. rewrite (pseudo_proper_resort _ t C), (pseudo_proper_resort _ t D), (hist_disjoint_resort t E).
+  unfold vb_initial_properb in *. rewrite (pseudo_proper_resort _ t D), (hist_disjoint_resort t E).
   reflexivity.
 Qed.
 
